@@ -46,7 +46,7 @@ func (fc *funcContext) translateStmt(stmt ast.Stmt, label *types.Label) {
 		panic(bail) // Initiate orderly bailout.
 	}()
 
-	fc.SetPos(stmt.Pos())
+	fc.setStmtPos(stmt)
 
 	stmt = filter.IncDecStmt(stmt, fc.pkgCtx.Info.Info)
 	stmt = filter.Assign(stmt, fc.pkgCtx.Info.Info, fc.pkgCtx.Info.Pkg)
@@ -62,7 +62,7 @@ func (fc *funcContext) translateStmt(stmt ast.Stmt, label *types.Label) {
 			if ifStmt.Init != nil {
 				panic("simplification error")
 			}
-			caseClauses = append(caseClauses, &ast.CaseClause{List: []ast.Expr{ifStmt.Cond}, Body: ifStmt.Body.List})
+			caseClauses = append(caseClauses, &ast.CaseClause{Case: ifStmt.If, List: []ast.Expr{ifStmt.Cond}, Body: ifStmt.Body.List})
 			elseStmt, ok := ifStmt.Else.(*ast.IfStmt)
 			if !ok {
 				break
